@@ -39,24 +39,68 @@ impl<'ast> Visit<'ast> for BreakFinder {
     fn visit_expr_closure(&mut self, _: &'ast syn::ExprClosure) {}
 }
 
-/// names assigned (`x = ..`, `x op= ..`) and names declared by `let` inside
+/// methods that modify their receiver (a `Vec` / `VecDeque` / `HashMap` field of `&mut self`)
+pub const MUTATING_METHODS: &[&str] = &["resize", "clear", "push", "pop", "drain", "truncate", "insert", "remove", "push_back", "push_front", "pop_back", "pop_front"];
+
+/// `self.f` → `f`
+pub fn self_field(e: &Expr) -> Option<String> {
+    if let Expr::Field(f) = strip_paren(e) {
+        if let Expr::Path(p) = strip_paren(&f.base) {
+            if p.path.is_ident("self") { if let syn::Member::Named(i) = &f.member { return Some(i.to_string()); } }
+        }
+    }
+    None
+}
+
+/// the field of `self` modified by an assignment to `target` (`self.f`, `self.f[i]`)
+pub fn mutated_self_field_of_target(target: &Expr) -> Option<String> {
+    match strip_paren(target) { Expr::Index(ix) => self_field(&ix.expr), e => self_field(e) }
+}
+
+/// names assigned (`x = ..`, `x op= ..`; a mutated field `f` of `self` is the name `self.f`) and names declared by
+/// `let` inside
 struct AssignFinder { assigned: Vec<String>, declared: Vec<String> }
+impl AssignFinder {
+    fn target(&mut self, left: &Expr) {
+        let n = match path_ident(left) { Some(n) => Some(n), None => mutated_self_field_of_target(left).map(|f| format!("self.{}", f)) };
+        if let Some(n) = n { if !self.assigned.contains(&n) { self.assigned.push(n); } }
+    }
+}
 impl<'ast> Visit<'ast> for AssignFinder {
     fn visit_expr_assign(&mut self, a: &'ast syn::ExprAssign) {
-        if let Some(n) = path_ident(&a.left) { if !self.assigned.contains(&n) { self.assigned.push(n); } }
+        self.target(&a.left);
         syn::visit::visit_expr_assign(self, a);
     }
     fn visit_expr_binary(&mut self, b: &'ast syn::ExprBinary) {
-        if is_compound(&b.op) {
-            if let Some(n) = path_ident(&b.left) { if !self.assigned.contains(&n) { self.assigned.push(n); } }
-        }
+        if is_compound(&b.op) { self.target(&b.left); }
         syn::visit::visit_expr_binary(self, b);
+    }
+    fn visit_expr_method_call(&mut self, m: &'ast syn::ExprMethodCall) {
+        if MUTATING_METHODS.contains(&m.method.to_string().as_str()) {
+            if let Some(f) = self_field(&m.receiver) { let n = format!("self.{}", f); if !self.assigned.contains(&n) { self.assigned.push(n); } }
+        }
+        syn::visit::visit_expr_method_call(self, m);
     }
     fn visit_pat_ident(&mut self, p: &'ast syn::PatIdent) { self.declared.push(p.ident.to_string()); }
     fn visit_expr_closure(&mut self, _: &'ast syn::ExprClosure) {}
 }
 
-fn is_compound(op: &BinOp) -> bool {
+/// the side-effecting method call at the head of a method chain (`self.q.pop_front().unwrap()` → `self.q.pop_front()`)
+pub fn effect_head(e: &Expr) -> Option<&syn::ExprMethodCall> {
+    let mut cur = strip_paren(e);
+    loop {
+        match cur {
+            Expr::MethodCall(mc) => {
+                if MUTATING_METHODS.contains(&mc.method.to_string().as_str()) && self_field(&mc.receiver).is_some() { return Some(mc); }
+                cur = strip_paren(&mc.receiver);
+            }
+            Expr::Unary(u) if matches!(u.op, syn::UnOp::Not(_)) => cur = strip_paren(&u.expr),
+            _ => return None,
+        }
+    }
+}
+
+pub fn is_compound(op: &BinOp) -> bool {
     matches!(op, BinOp::AddAssign(_) | BinOp::SubAssign(_) | BinOp::MulAssign(_) | BinOp::DivAssign(_) | BinOp::RemAssign(_)
         | BinOp::BitXorAssign(_) | BinOp::BitAndAssign(_) | BinOp::BitOrAssign(_) | BinOp::ShlAssign(_) | BinOp::ShrAssign(_))
 }
@@ -208,6 +252,9 @@ impl<'w> FnTr<'w> {
                 Ok(out)
             }
             Expr::Return(r) => self.tr_return(e, r),
+            // `{ self.bits |= x }`: an assignment as the (unit) value of a block
+            Expr::Assign(a) => { let mut out = vec![]; self.tr_assign(e, &a.left, None, &a.right, &mut out)?; out.extend(self.finish(None, k)?); Ok(out) }
+            Expr::Binary(b) if is_compound(&b.op) => { let mut out = vec![]; self.tr_assign(e, &b.left, Some(&b.op), &b.right, &mut out)?; out.extend(self.finish(None, k)?); Ok(out) }
             _ => {
                 let exp = match k { Kont::Return => Some(self.ret.clone()), Kont::Value(t) => t.clone().or_else(|| self.value_ty.last().cloned().flatten()), _ => None };
                 match k {
@@ -228,13 +275,50 @@ impl<'w> FnTr<'w> {
             Pat::Type(pt) => (&*pt.pat, Some(self.resolve_type(&pt.ty)?)),
             p => (p, None),
         };
+        let init = l.init.as_ref().ok_or_else(|| self.err(l, "`let` without initialiser"))?;
+        if init.diverge.is_some() { return Err(self.err(l, "`let .. else`")); }
+        let e = &*init.expr;
+        // `let (a, b) = e;`
+        if let Pat::Tuple(pt) = pat {
+            let mut names = vec![];
+            for p in &pt.elems {
+                match p {
+                    Pat::Ident(pi) if pi.by_ref.is_none() && pi.subpat.is_none() => names.push((pi.ident.to_string(), pi.mutability.is_some())),
+                    _ => return Err(self.err(l, "unsupported pattern inside a tuple pattern")),
+                }
+            }
+            if contains_return_expr(e) { return Err(self.err(e, "`return`/`?` inside a `let` initialiser")); }
+            let (text, monadic, ty) = match e {
+                Expr::If(_) | Expr::Match(_) | Expr::Block(_) => {
+                    let (lines, ty) = self.tr_ctl_value(e, ann.as_ref())?;
+                    match compress(&lines) {
+                        Some(t) => (t, false, ty),
+                        None => { let mut ls = indent(lines, 2); if let Some(last) = ls.last_mut() { last.push(')'); } (format!("(\n{}", ls.join("\n")), true, ty) }
+                    }
+                }
+                _ => {
+                    self.effect_allowed = effect_head(e).map(|m| m as *const _);
+                    let x = self.tr_expr(e, ann.as_ref());
+                    self.effect_allowed = None;
+                    let x = x?;
+                    out.append(&mut self.pending);
+                    match &x.m { Some(m) => (m.clone(), true, x.ty.clone()), None => (x.text.clone(), false, x.ty.clone()) }
+                }
+            };
+            let tys = match &ty { RTy::Tuple(ts) if ts.len() == names.len() => ts.clone(), _ => return Err(self.err(l, &format!("tuple pattern for a value of type {}", ty.rust()))) };
+            if let Some(a) = &ann { if !a.compat(&ty) { return Err(self.err(l, "annotation does not match")); } }
+            let mut vs = vec![];
+            for ((n, m), t) in names.iter().zip(tys.iter()) {
+                if let RTy::Flat(_) = t { return Err(self.err(l, "binding a struct value")); }
+                vs.push(self.declare(l, n, t.clone(), *m, None)?);
+            }
+            for line in format!("let ({}) {} {}", vs.join(", "), if monadic { "←" } else { ":=" }, text).split('\n') { out.push(line.to_string()); }
+            return Ok(false);
+        }
         let (name, mutable) = match pat {
             Pat::Ident(pi) if pi.by_ref.is_none() && pi.subpat.is_none() => (pi.ident.to_string(), pi.mutability.is_some()),
             _ => return Err(self.err(l, "unsupported `let` pattern")),
         };
-        let init = l.init.as_ref().ok_or_else(|| self.err(l, "`let` without initialiser"))?;
-        if init.diverge.is_some() { return Err(self.err(l, "`let .. else`")); }
-        let e = &*init.expr;
         // `let x = E?;`
         if let Expr::Try(t) = e {
             let inner = self.tr_expr(&t.expr, None)?;
@@ -268,8 +352,12 @@ impl<'w> FnTr<'w> {
                 }
             }
             _ => {
-                let x = self.tr_expr(e, ann.as_ref())?;
-                if let Some(a) = &ann { if *a != x.ty { return Err(self.err(l, &format!("annotation {} does not match {}", a.rust(), x.ty.rust()))); } }
+                self.effect_allowed = effect_head(e).map(|m| m as *const _);
+                let x = self.tr_expr(e, ann.as_ref());
+                self.effect_allowed = None;
+                let x = x?;
+                out.append(&mut self.pending);
+                if let Some(a) = &ann { if !a.compat(&x.ty) { return Err(self.err(l, &format!("annotation {} does not match {}", a.rust(), x.ty.rust()))); } }
                 if let RTy::Flat(_) = x.ty { return Err(self.err(l, "binding a struct value")); }
                 let v = self.declare(l, &name, x.ty.clone(), mutable, None)?;
                 out.push(bind_line(&v, &x));
@@ -293,11 +381,44 @@ impl<'w> FnTr<'w> {
             }
             return Err(self.err(e, "indexed assignment is only supported on list-mode Vec fields"));
         }
-        let name = path_ident(left).ok_or_else(|| self.err(e, "unsupported assignment target"))?;
+        let name = match path_ident(left) {
+            Some(n) => n,
+            None => match self_field(left) {
+                // a field of `&mut self` (registered as a mutable variable `self.f` by the pre-scan)
+                Some(f) => { self.self_field_var(e, &f)?; format!("self.{}", f) }
+                None => return Err(self.err(e, "unsupported assignment target")),
+            },
+        };
         let v = self.lookup(&name).cloned().ok_or_else(|| self.err(e, "assignment to an unknown variable"))?;
         if !v.mutable { return Err(self.err(e, "assignment to an immutable variable")); }
         let x = match op {
             None => self.tr_expr(right, Some(&v.ty))?,
+            Some(op) if v.ty == RTy::U64 => {
+                self.note_use(&v.lean);
+                match op {
+                    BinOp::ShlAssign(_) | BinOp::ShrAssign(_) => {
+                        let r = self.tr_expr(right, if is_untyped(right) { Some(&RTy::Int(IntTy::I32)) } else { None })?;
+                        let amount = match &r.ty { RTy::U64 => format!("(u64ToInt {})", r.a()), RTy::Int(_) => r.a(), _ => return Err(self.err(e, "shift amount is not an integer")) };
+                        Ex::monadic(format!("{} {} {}", if matches!(op, BinOp::ShlAssign(_)) { "u64Shl" } else { "u64Shr" }, v.lean, amount), RTy::U64)
+                    }
+                    _ => {
+                        let r = self.tr_expr(right, Some(&RTy::U64))?;
+                        if r.ty != RTy::U64 { return Err(self.err(e, "operand type mismatch")); }
+                        match op {
+                            BinOp::BitAndAssign(_) | BinOp::BitOrAssign(_) | BinOp::BitXorAssign(_) => {
+                                let o = match op { BinOp::BitAndAssign(_) => "&&&", BinOp::BitOrAssign(_) => "|||", _ => "^^^" };
+                                let mut x = Ex::pure(format!("{} {} {}", v.lean, o, r.a()), RTy::U64);
+                                x.pure = r.pure;
+                                x
+                            }
+                            BinOp::AddAssign(_) => Ex::monadic(format!("u64Add {} {}", v.lean, r.a()), RTy::U64),
+                            BinOp::SubAssign(_) => Ex::monadic(format!("u64Sub {} {}", v.lean, r.a()), RTy::U64),
+                            BinOp::MulAssign(_) => Ex::monadic(format!("u64Mul {} {}", v.lean, r.a()), RTy::U64),
+                            _ => return Err(self.err(e, "unsupported compound assignment")),
+                        }
+                    }
+                }
+            }
             Some(op) => {
                 let t = self.int_of(e, &v.ty)?;
                 let r = self.tr_expr(right, Some(&v.ty))?;
@@ -503,10 +624,16 @@ impl<'w> FnTr<'w> {
                     })
                 }
                 Some(c) => {
-                    let cx = self.branch_cond(c)?;
+                    // a side-effecting call may be the head of the FIRST condition of a chain (it runs before the `if`)
+                    if let (CondSrc::Expr(ce), 0, false) = (c, idx, matches!(k, Kont::Value(_))) { self.effect_allowed = effect_head(ce).map(|m| m as *const _); }
+                    let cx = self.branch_cond(c);
+                    self.effect_allowed = None;
+                    let cx = cx?;
+                    let pre: Vec<String> = self.pending.drain(..).collect();
                     let then_lines = self.branch_body(b, k)?;
                     Ok({
-                        let mut out = vec![format!("if {} then do", cx.cond())];
+                        let mut out = pre;
+                        out.push(format!("if {} then do", cx.cond()));
                         out.extend(indent(then_lines, 2));
                         out.push("else do".to_string());
                         out
@@ -527,6 +654,7 @@ impl<'w> FnTr<'w> {
     /// control-flow expression used for its value; returns the lines of an `Option`-valued term (a do-sequence) and the type
     pub fn tr_ctl_value(&mut self, e: &Expr, exp: Option<&RTy>) -> Res<(Vec<String>, RTy)> {
         if contains_return_expr(e) { return Err(self.err(e, "`return`/`?` inside a value expression")); }
+        if !self.assigned_outer_expr(e)?.is_empty() { return Err(self.err(e, "assignment to an outer variable / mutation of `self` inside a value expression")); }
         let (pre, branches) = self.branches_of(e)?;
         self.value_ty.push(exp.cloned());
         let saved_mode = self.ret_mode;
@@ -563,7 +691,9 @@ impl<'w> FnTr<'w> {
                 // unconditional block without effect on control flow
                 out.push(format!("let {} ← {}", pat_tuple(&vars), lines[0]));
             } else {
-                out.push(format!("let {} ← (", pat_tuple(&vars)));
+                // statements before the `if` (a side-effecting call in its condition) need a `do` block
+                let needs_do = !(lines[0].starts_with("if ") || lines[0].starts_with("match "));
+                out.push(format!("let {} ← ({}", pat_tuple(&vars), if needs_do { "do" } else { "" }));
                 let mut ls = indent(lines, 2);
                 if let Some(last) = ls.last_mut() { last.push(')'); }
                 out.extend(ls);
@@ -756,6 +886,15 @@ impl<'w> FnTr<'w> {
         let method = mc.method.to_string();
         let args: Vec<&Expr> = mc.args.iter().collect();
         let recv = self.tr_expr(&mc.receiver, None)?;
+        if matches!(recv.ty, RTy::HashMap(_, _) | RTy::VecDeque(_)) {
+            // `self.map.remove(&k);` etc.: the returned value is dropped
+            self.effect_allowed = Some(mc as *const _);
+            let r = self.tr_effect_call(e, mc, true);
+            self.effect_allowed = None;
+            r?;
+            out.append(&mut self.pending);
+            return Ok(());
+        }
         match (&recv.ty, method.as_str()) {
             (RTy::VecList(el), "resize") => {
                 if args.len() != 2 { return Err(self.err(e, "wrong number of arguments")); }
@@ -781,9 +920,65 @@ impl<'w> FnTr<'w> {
     pub fn mark_self_assigned(&mut self, e: &Expr, name: &str) -> Res<()> {
         let ok = self.lparams.iter().any(|p| p.name == name && matches!(p.origin, Origin::ParamField(0, _)));
         if !ok || self.rust_params.first().map(|p| p.0.as_str()) != Some("self") { return Err(self.err(e, "mutation of something that is not a field of `self`")); }
-        if self.ret_mode != RetMode::Direct || self.depth != 1 { return Err(self.err(e, "mutation of a `self` field inside a nested block / loop is unsupported")); }
+        if self.ret_mode != RetMode::Direct || !self.loop_stack_empty() { return Err(self.err(e, "mutation of a `self` field inside a loop is unsupported")); }
         if !self.self_mutated.contains(&name.to_string()) { return Err(self.err(e, "internal: mutated field not found by the pre-scan")); }
         Ok(())
+    }
+
+    pub fn loop_stack_empty(&self) -> bool { self.used.is_empty() }
+
+    /// the mutable variable that stands for the field `f` of `&mut self`
+    pub fn self_field_var(&mut self, e: &Expr, f: &str) -> Res<Var> {
+        let v = self.lookup(&format!("self.{}", f)).cloned().ok_or_else(|| self.err(e, "mutation of a field of `self` that the pre-scan did not find (or `self` is not `&mut`)"))?;
+        if self.ret_mode != RetMode::Direct || !self.loop_stack_empty() { return Err(self.err(e, "mutation of a `self` field inside a loop is unsupported")); }
+        Ok(v)
+    }
+
+    /// `self.f.m(args)` for a side-effecting method `m` of the mapping table (`HashMap::insert/remove/clear`,
+    /// `VecDeque::push_back/pop_front/clear`): the statement that rebinds the field goes to `self.pending`, the result is
+    /// the returned value.  Only allowed where the caller has set `effect_allowed` (evaluation order).
+    pub fn tr_effect_call(&mut self, e: &Expr, mc: &syn::ExprMethodCall, discard: bool) -> Res<Ex> {
+        if self.effect_allowed != Some(mc as *const _) {
+            return Err(self.err(e, "side-effecting call in an unsupported position (supported: a statement of its own, or the head of the method chain that is a whole `let` initialiser / first `if` condition)"));
+        }
+        self.effect_allowed = None;
+        let method = mc.method.to_string();
+        let f = self_field(&mc.receiver).ok_or_else(|| self.err(e, "side-effecting call on something that is not a field of `self`"))?;
+        let v = self.self_field_var(e, &f)?;
+        let args: Vec<&Expr> = mc.args.iter().collect();
+        let mut xs = vec![];
+        let want: Vec<RTy> = match (&v.ty, method.as_str()) {
+            (RTy::HashMap(k, val), "insert") => vec![(**k).clone(), (**val).clone()],
+            (RTy::HashMap(k, _), "remove") => vec![(**k).clone()],
+            (RTy::HashMap(_, _), "clear") | (RTy::VecDeque(_), "clear") | (RTy::VecDeque(_), "pop_front") => vec![],
+            (RTy::VecDeque(t), "push_back") => vec![(**t).clone()],
+            _ => return Err(self.err(e, &format!("method `{}` on {} is not in the mapping table", method, v.ty.rust()))),
+        };
+        if want.len() != args.len() { return Err(self.err(e, "wrong number of arguments")); }
+        for (a, w) in args.iter().zip(want.iter()) {
+            let x = self.tr_expr(a, Some(w))?;
+            if !x.ty.compat(w) { return Err(self.err(e, &format!("argument of type {} where {} is expected", x.ty.rust(), w.rust()))); }
+            xs.push(x.a());
+        }
+        self.note_use(&v.lean);
+        let (fun, ret): (&str, Option<RTy>) = match (&v.ty, method.as_str()) {
+            (RTy::HashMap(_, val), "insert") => ("hmInsert", Some(RTy::Opt(val.clone()))),
+            (RTy::HashMap(_, val), "remove") => ("hmRemove", Some(RTy::Opt(val.clone()))),
+            (RTy::HashMap(_, _), "clear") => ("hmClear", None),
+            (RTy::VecDeque(_), "clear") => ("vdClear", None),
+            (RTy::VecDeque(t), "pop_front") => ("vdPopFront", Some(RTy::Opt(t.clone()))),
+            (RTy::VecDeque(_), "push_back") => ("vdPushBack", None),
+            _ => unreachable!(),
+        };
+        let call = format!("{} {} {}", fun, v.lean, xs.join(" ")).trim_end().to_string();
+        match ret {
+            None => { self.pending.push(format!("let {} := {}", v.lean, call)); Ok(Ex::atom("()", RTy::Unit)) }
+            Some(t) => {
+                let r = if discard { "_".to_string() } else { self.fresh("r") };
+                self.pending.push(format!("let ({}, {}) := {}", v.lean, r, call));
+                Ok(Ex::atom(r, t))
+            }
+        }
     }
 }
 
